@@ -75,7 +75,9 @@ type ConcResult struct {
 	Locks      []ConcLock        `json:"locks"`
 	Edges      []ConcEdge        `json:"edges"`
 	ClassEdges map[string]uint64 `json:"class_edges"`
-	Cycle      []ConcEdge        `json:"cycle,omitempty"` // a cycle of the nesting relation with labels and call sites
+	Cycle      []ConcEdge        `json:"cycle,omitempty"` // an offending cycle of the nesting relation with labels and call sites
+	Excused    [][]string        `json:"single_role_cycles,omitempty"` // lock groups nested cyclically by ONE single-goroutine role only (harmless)
+	Rank       map[int]int       `json:"rank,omitempty"` // rank certificate (levels of the condensation) when the relation is cyclic
 	Reentries  []ConcReentry     `json:"reentries,omitempty"`
 	Counters   map[string]uint64 `json:"counters"`
 	Blocked    []string          `json:"blocked,omitempty"` // goroutines that did not finish before the watchdog deadline
@@ -254,6 +256,36 @@ func (r *concRun) partitionManager(role string, op *CoreOp) {
 	r.opsDone.Add(1)
 }
 
+// roles of the goroutines. The SINGLE roles are one goroutine each in the real service (scheduler.go StartService:
+// internalSchedule, handleAllocEvent, handleNodeEvent, handleInfraEvent); every other role stands for several
+// goroutines (REST handlers, timers, partition manager cleaners, health / quota / outstanding-request loops, anything
+// spawned with `go` by the core: role "").
+var concRoleID = map[string]int{"": 0, "sched": 1, "rm": 2, "node": 3, "infra": 4, "bg": 5, "pm": 6, "timer": 7, "rest": 8, "rest0": 8, "rest1": 8, "shim": 9, "seq": 10}
+var concSingleRoles = []int{1, 2, 3, 4}
+
+func concRoleOfOp(kind string) string {
+	switch kind {
+	case "app_add", "app_remove", "alloc", "release":
+		return "rm"
+	case "node_add", "node_update", "node_drain", "node_undrain", "node_remove":
+		return "node"
+	case "reload":
+		return "infra"
+	case "fire_ph", "fire_state":
+		return "timer"
+	}
+	return "pm"
+}
+
+func concIsSingle(role int) bool {
+	for _, r := range concSingleRoles {
+		if r == role {
+			return true
+		}
+	}
+	return false
+}
+
 // split the history over the input goroutines
 func concThreads(ops []CoreOp) map[string][]CoreOp {
 	th := map[string][]CoreOp{}
@@ -359,31 +391,40 @@ func runConcCase(c *ConcCase) *ConcResult {
 			rng := r.rng.Fork()
 			for i := range c.Ops {
 				op := &c.Ops[i]
+				// the goroutine takes the role the op has in the concurrent runs
 				switch op.Kind {
 				case "sched":
+					locking.VerifLockSetRole("sched")
 					r.guard("seq", func() { d.core.Schedule() })
 					r.cycles.Add(1)
 				case "clean":
+					locking.VerifLockSetRole("pm")
 					r.partitionManager("seq", op)
 				default:
+					locking.VerifLockSetRole(concRoleOfOp(op.Kind))
 					r.exec("seq", op)
 				}
 				r.takeEvents()
+				locking.VerifLockSetRole("rm")
 				for len(r.confirm) > 0 {
 					op := <-r.confirm
 					r.exec("seq", &op)
 				}
 				if rng.Chance(10) {
+					locking.VerifLockSetRole("rest")
 					r.rest("seq", rng)
 				}
 				if rng.Chance(5) {
+					locking.VerifLockSetRole("bg")
 					r.background("seq")
 				}
 			}
 			for i := 0; i < 200; i++ {
+				locking.VerifLockSetRole("sched")
 				r.guard("seq", func() { d.core.Schedule() })
 				r.cycles.Add(1)
 				r.takeEvents()
+				locking.VerifLockSetRole("rm")
 				for len(r.confirm) > 0 {
 					op := <-r.confirm
 					r.exec("seq", &op)
@@ -647,65 +688,129 @@ func concResolve(res *ConcResult, edges []locking.VerifEdge, reg *concRegistry) 
 		}
 		res.Reentries = append(res.Reentries, ConcReentry{Label: label, Count: x.Count, Modes: concModes(x.HeldRead, !x.HeldRead) + ">" + concModes(x.Read, !x.Read), Site: x.Site, Held: x.HeldSite})
 	}
-	res.Cycle = concFindCycle(len(res.Locks), res.Edges)
+	concAnalyse(res)
 }
 
-// concFindCycle returns the edges of one cycle of the relation (depth-first search), nil when acyclic.
-func concFindCycle(n int, edges []ConcEdge) []ConcEdge {
+// concAnalyse computes the strongly connected components of the lock graph (Tarjan). A component with inner edges
+// is excused when all its inner edges were shown by ONE single-goroutine role only; otherwise a cycle inside it is
+// reported. The rank certificate (component index in topological order) is what Coq's order_ok re-checks.
+func concAnalyse(res *ConcResult) {
+	n := len(res.Locks)
 	adj := make([][]int, n+1)
-	for i, e := range edges {
+	for i, e := range res.Edges {
 		adj[e.From] = append(adj[e.From], i)
 	}
-	color := make([]int, n+1)
-	var stack []int // edge indexes of the current path
-	var cycle []ConcEdge
-	var dfs func(v int) bool
-	dfs = func(v int) bool {
-		color[v] = 1
+	index, low, comp := make([]int, n+1), make([]int, n+1), make([]int, n+1)
+	onStack := make([]bool, n+1)
+	for i := range index {
+		index[i], comp[i] = -1, -1
+	}
+	var stack []int
+	next, ncomp := 0, 0
+	var strong func(v int)
+	strong = func(v int) {
+		index[v], low[v] = next, next
+		next++
+		stack = append(stack, v)
+		onStack[v] = true
 		for _, ei := range adj[v] {
-			w := edges[ei].To
-			if color[w] == 1 {
-				// back edge: the cycle is the path from w to v plus this edge
-				start := 0
-				for k := range stack {
-					if edges[stack[k]].From == w {
-						start = k
-						break
-					}
+			w := res.Edges[ei].To
+			if index[w] < 0 {
+				strong(w)
+				if low[w] < low[v] {
+					low[v] = low[w]
 				}
-				if v == w {
-					cycle = []ConcEdge{edges[ei]}
-					return true
-				}
-				for _, k := range stack[start:] {
-					cycle = append(cycle, edges[k])
-				}
-				cycle = append(cycle, edges[ei])
-				return true
+			} else if onStack[w] && index[w] < low[v] {
+				low[v] = index[w]
 			}
-			if color[w] == 0 {
-				stack = append(stack, ei)
-				if dfs(w) {
-					return true
-				}
+		}
+		if low[v] == index[v] {
+			for {
+				w := stack[len(stack)-1]
 				stack = stack[:len(stack)-1]
+				onStack[w] = false
+				comp[w] = ncomp
+				if w == v {
+					break
+				}
 			}
+			ncomp++
 		}
-		color[v] = 2
-		return false
 	}
-	order := make([]int, 0, n)
 	for v := 1; v <= n; v++ {
-		order = append(order, v)
-	}
-	sort.Ints(order)
-	for _, v := range order {
-		if color[v] == 0 {
-			stack = stack[:0]
-			if dfs(v) {
-				return cycle
-			}
+		if index[v] < 0 {
+			strong(v)
 		}
 	}
-	return nil
+	// Tarjan numbers the components in reverse topological order (sinks first)
+	inner := map[int][]int{}
+	for i, e := range res.Edges {
+		if comp[e.From] == comp[e.To] {
+			inner[comp[e.From]] = append(inner[comp[e.From]], i)
+		}
+	}
+	if len(inner) == 0 {
+		return
+	}
+	res.Rank = map[int]int{}
+	for v := 1; v <= n; v++ {
+		res.Rank[v] = ncomp - 1 - comp[v]
+	}
+	comps := make([]int, 0, len(inner))
+	for c := range inner {
+		comps = append(comps, c)
+	}
+	sort.Ints(comps)
+	for _, c := range comps {
+		roles := map[int]bool{}
+		for _, ei := range inner[c] {
+			for _, r := range res.Edges[ei].Roles {
+				roles[concRoleID[r]] = true
+			}
+		}
+		single := len(roles) == 1
+		for r := range roles {
+			if !concIsSingle(r) {
+				single = false
+			}
+		}
+		if single {
+			var names []string
+			for v := 1; v <= n; v++ {
+				if comp[v] == c {
+					names = append(names, res.Locks[v-1].Label)
+				}
+			}
+			res.Excused = append(res.Excused, names)
+			continue
+		}
+		if res.Cycle == nil {
+			res.Cycle = concCycleIn(res.Edges, inner[c])
+		}
+	}
+}
+
+// concCycleIn returns the edges of one cycle among the given (inner) edges of a strongly connected component.
+func concCycleIn(edges []ConcEdge, inner []int) []ConcEdge {
+	adj := map[int][]int{}
+	for _, ei := range inner {
+		adj[edges[ei].From] = append(adj[edges[ei].From], ei)
+	}
+	start := edges[inner[0]].From
+	pos := map[int]int{} // lock -> position in path
+	var path []int       // edge indexes
+	v := start
+	for {
+		if p, ok := pos[v]; ok {
+			var cyc []ConcEdge
+			for _, ei := range path[p:] {
+				cyc = append(cyc, edges[ei])
+			}
+			return cyc
+		}
+		pos[v] = len(path)
+		ei := adj[v][0] // every lock of a component with inner edges has an inner outgoing edge
+		path = append(path, ei)
+		v = edges[ei].To
+	}
 }
